@@ -1063,6 +1063,7 @@ func handleConnections(closed <-chan struct{}, parentwg *sync.WaitGroup, message
 
 	http.HandleFunc("/", func(w http.ResponseWriter, r *http.Request) {
 		serveWs(closed, w, r, config)
+		verifhook.Point("ws.done", r.URL.Query().Get("code"))
 	})
 
 	var wg sync.WaitGroup
